@@ -323,13 +323,13 @@ pub mod refmodel {
     }
 
     #[inline]
-    fn u(r: &mut R, bits: u32) -> u128 {
+    fn u<B: BitRead>(r: &mut B, bits: u32) -> u128 {
         // the script never ends inside a harness that uses the oracle
         r.read_var::<u64>(bits).unwrap() as u128
     }
 
     #[inline]
-    fn s(r: &mut R, bits: u32) -> i128 {
+    fn s<B: BitRead>(r: &mut B, bits: u32) -> i128 {
         // two's complement, most significant bit first
         let raw = u(r, bits);
         if bits == 0 {
@@ -348,7 +348,7 @@ pub mod refmodel {
 
     /// residual section (RFC 9639 9.2.7) for a block of `n` samples with
     /// predictor order `order`; writes residuals to out[order..n]
-    pub fn residuals(r: &mut R, order: usize, n: usize, out: &mut [i128]) -> Verdict {
+    pub fn residuals<B: BitRead>(r: &mut B, order: usize, n: usize, out: &mut [i128]) -> Verdict {
         let method = u(r, 2);
         if method > 1 {
             return Verdict::Invalid;
@@ -409,7 +409,7 @@ pub mod refmodel {
     }
 
     /// one subframe of `n` samples at `bps` bits per sample (1..=33)
-    pub fn subframe(r: &mut R, bps: u32, n: usize, out: &mut [i128]) -> Verdict {
+    pub fn subframe<B: BitRead>(r: &mut B, bps: u32, n: usize, out: &mut [i128]) -> Verdict {
         if u(r, 1) != 0 {
             return Verdict::Invalid;
         }
@@ -529,4 +529,477 @@ pub mod refmodel {
         }
         verdict
     }
+}
+
+// ---------------------------------------------------------------------------
+// TokFifo: an exact model of "the bits written are the bits read"
+// ---------------------------------------------------------------------------
+//
+// A first-in first-out queue of bit fields.  The writer side implements
+// `BitWrite` with the contract of `bitstream_io::BitWriter` (a value that does
+// not fit its width is an `InvalidInput` error - the encoder's fallback chain
+// depends on that - and nothing is queued for it).  The reader side implements
+// `BitRead` and hands the queued bits back most-significant bit first,
+// whatever the granularity of the requests (a request may take part of a
+// field or span several).  Unary runs are queued as such; reading a unary run
+// where a fixed field is queued (or vice versa) is expanded bit by bit for
+// fields up to 64 bits.  It stands in for BitWriter/BitRecorder -> bytes ->
+// BitReader (a dependency of the crate, not the subject), without symbolic bit
+// offsets.
+
+/// the endianness marker types are zero-sized and their conversion functions
+/// private to bitstream-io: tell them apart by name (constant-folded)
+#[inline]
+fn is_little_endian<F: Endianness>() -> bool {
+    let n = core::any::type_name::<F>().as_bytes();
+    n.len() >= 12 && n[n.len() - 12] == b'L'
+}
+
+#[derive(Copy, Clone)]
+pub struct Tok {
+    /// 0 = fixed-width field, 1 = unary run terminated by a 0 bit (run of ones),
+    /// 2 = unary run terminated by a 1 bit (run of zeros)
+    pub kind: u8,
+    /// fixed: width in bits (fields wider than 64 bits are all-zero padding);
+    /// unary: run length (the stop bit is not counted)
+    pub bits: u64,
+    /// fixed: the value, right-aligned
+    pub val: u64,
+}
+
+pub const TOK_EMPTY: Tok = Tok { kind: 0, bits: 0, val: 0 };
+
+pub struct TokFifo<const N: usize> {
+    // one array per field: arrays of scalars indexed by constants are
+    // constant-propagated by CBMC's field sensitivity, arrays of structs are not
+    pub kinds: [u8; N],
+    pub widths: [u64; N],
+    pub vals: [u64; N],
+    /// number of queued tokens
+    pub len: usize,
+    /// index of the token at the head of the queue
+    pub rd: usize,
+    /// bits already consumed from the head token
+    pub used: u64,
+    /// total bits written / read
+    pub wpos: u64,
+    pub rpos: u64,
+    /// set when a write was attempted with the queue full (harness bound too small)
+    pub overflowed: bool,
+    /// set when a write was rejected (value does not fit its width)
+    pub failed: bool,
+    /// strict: a rejected write returns `InvalidInput` like BitWriter does.
+    /// Not strict (default): the rejection is only recorded in `failed` and
+    /// the write returns Ok, so that the writer's control flow - and with it
+    /// every slot index - stays independent of the values written; a harness
+    /// then reads "failed" as "the real writer returned an error at the first
+    /// rejected field".
+    pub strict: bool,
+    /// exact (default): every read request must coincide with one queued
+    /// field (same kind, same width); the request then pops exactly one slot
+    /// whatever the values are, so slot indices stay compile-time constants,
+    /// and a request that does not coincide is a failed check ("granularity").
+    /// Not exact: requests may take part of a field or span several (needed
+    /// where writer and reader use different field boundaries, e.g. the coded
+    /// frame number is written as bytes and read as 2+6 bits).
+    pub exact: bool,
+}
+
+impl<const N: usize> TokFifo<N> {
+    pub fn new() -> Self {
+        Self {
+            kinds: [0; N],
+            widths: [0; N],
+            vals: [0; N],
+            len: 0,
+            rd: 0,
+            used: 0,
+            wpos: 0,
+            rpos: 0,
+            overflowed: false,
+            failed: false,
+            strict: false,
+            exact: true,
+        }
+    }
+
+    /// Queues one field.  The slot index advances on every call (zero-width
+    /// fields and fields whose value was rejected included) so that it stays a
+    /// compile-time constant whenever the writer's control flow is concrete.
+    #[inline]
+    pub fn push(&mut self, kind: u8, bits: u64, val: u64) {
+        if self.len < N {
+            self.kinds[self.len] = kind;
+            self.widths[self.len] = bits;
+            self.vals[self.len] = val;
+            self.len += 1;
+            self.wpos += if kind == 0 { bits } else { bits + 1 };
+        } else {
+            self.overflowed = true;
+            kani::assert(false, "TokFifo capacity exceeded: raise the harness bound");
+        }
+    }
+
+    #[inline]
+    pub fn tok(&self, i: usize) -> Tok {
+        Tok { kind: self.kinds[i], bits: self.widths[i], val: self.vals[i] }
+    }
+
+    /// everything written has been read
+    pub fn drained(&self) -> bool {
+        self.rd == self.len && self.used == 0
+    }
+
+    /// a reader over the same queued fields, positioned at the start
+    pub fn rewound(&self) -> Self {
+        Self {
+            kinds: self.kinds,
+            widths: self.widths,
+            vals: self.vals,
+            len: self.len,
+            rd: 0,
+            used: 0,
+            wpos: self.wpos,
+            rpos: 0,
+            overflowed: self.overflowed,
+            failed: self.failed,
+            strict: self.strict,
+            exact: self.exact,
+        }
+    }
+
+    /// exact mode: pops one slot, which must be a fixed field of `n` bits
+    #[inline]
+    fn take_exact(&mut self, kind: u8, n: u64) -> io::Result<u64> {
+        if self.rd >= self.len {
+            return Err(eof());
+        }
+        let i = self.rd;
+        self.rd = i + 1;
+        kani::assert(
+            self.kinds[i] == kind && self.widths[i] == n,
+            "TokFifo granularity: a read request does not coincide with a written field",
+        );
+        self.rpos += if kind == 0 { n } else { n + 1 };
+        Ok(self.vals[i])
+    }
+
+    /// takes `n <= 64` bits, most significant first
+    fn take(&mut self, n: u32) -> io::Result<u64> {
+        if self.exact {
+            return self.take_exact(0, u64::from(n));
+        }
+        let mut need = u64::from(n);
+        let mut out: u64 = 0;
+        // at most 9 fields per request (a u64 assembled from bytes is 8)
+        let mut guard = 0;
+        while need > 0 {
+            kani::assert(guard < 10, "TokFifo: request spans more than 9 fields");
+            guard += 1;
+            if self.rd >= self.len {
+                return Err(eof());
+            }
+            let t = self.tok(self.rd);
+            if t.kind != 0 {
+                // fixed-width request against a unary run: hand the run out bit by bit
+                let run = t.bits;
+                let fill: u64 = if t.kind == 1 { 1 } else { 0 };
+                let avail = run + 1 - self.used;
+                let k = if need < avail { need } else { avail };
+                // bits used..used+k of: run x fill, then one stop bit
+                let mut j = 0;
+                while j < k {
+                    let pos = self.used + j;
+                    let bit = if pos < run { fill } else { 1 - fill };
+                    out = (out << 1) | bit;
+                    j += 1;
+                }
+                need -= k;
+                self.used += k;
+                if self.used == run + 1 {
+                    self.rd += 1;
+                    self.used = 0;
+                }
+                continue;
+            }
+            let avail = t.bits - self.used;
+            if need >= avail {
+                // whole remainder of this field
+                let part = if avail >= 64 { t.val } else { t.val & mask64(avail as u32) };
+                out = if avail >= 64 { part } else { (out << avail) | part };
+                need -= avail;
+                self.rd += 1;
+                self.used = 0;
+            } else {
+                let rest = avail - need;
+                let part = if rest >= 64 { 0 } else { (t.val >> rest) & mask64(need as u32) };
+                out = (out << need) | part;
+                self.used += need;
+                need = 0;
+            }
+        }
+        self.rpos += u64::from(n);
+        Ok(out)
+    }
+}
+
+impl<const N: usize> BitWrite for TokFifo<N> {
+    fn write_unsigned_counted<const BITS: u32, U>(
+        &mut self,
+        bits: BitCount<BITS>,
+        value: U,
+    ) -> io::Result<()>
+    where
+        U: UnsignedInteger,
+    {
+        let bits: u32 = bits.into();
+        if BITS <= U::BITS_SIZE || bits <= U::BITS_SIZE {
+            // a rejected value is still queued (masked) so that the slot
+            // index does not depend on the value; the caller sees the error
+            self.push(0, u64::from(bits), u_to_u64(value) & mask64(bits));
+            if !(bits == U::BITS_SIZE || value < (U::ONE << bits)) {
+                self.failed = true;
+                if self.strict {
+                    return Err(invalid());
+                }
+            }
+            Ok(())
+        } else {
+            Err(invalid())
+        }
+    }
+
+    fn write_signed_counted<const MAX: u32, S>(
+        &mut self,
+        bits: impl TryInto<SignedBitCount<MAX>>,
+        value: S,
+    ) -> io::Result<()>
+    where
+        S: SignedInteger,
+    {
+        let count: SignedBitCount<MAX> = bits.try_into().map_err(|_| invalid())?;
+        let bits: u32 = count.into();
+        if MAX <= S::BITS_SIZE || bits <= S::BITS_SIZE {
+            let ub = bits - 1;
+            let fits = bits == S::BITS_SIZE
+                || (((S::ZERO - S::ONE) << ub) <= value && value < (S::ONE << ub));
+            let raw = if value.is_negative() {
+                (1u64 << ub) | (u_to_u64(value.as_negative(bits)) & mask64(ub))
+            } else {
+                u_to_u64(value.as_non_negative()) & mask64(ub)
+            };
+            self.push(0, u64::from(bits), raw);
+            if !fits {
+                self.failed = true;
+                if self.strict {
+                    return Err(invalid());
+                }
+            }
+            Ok(())
+        } else {
+            Err(invalid())
+        }
+    }
+
+    fn write_from<V>(&mut self, value: V) -> io::Result<()>
+    where
+        V: Primitive,
+    {
+        let buf = value.to_be_bytes();
+        for b in buf.as_ref().iter() {
+            self.push(0, 8, u64::from(*b));
+        }
+        Ok(())
+    }
+
+    fn write_as_from<F, V>(&mut self, value: V) -> io::Result<()>
+    where
+        F: Endianness,
+        V: Primitive,
+    {
+        let buf = if is_little_endian::<F>() {
+            value.to_le_bytes()
+        } else {
+            value.to_be_bytes()
+        };
+        for b in buf.as_ref().iter() {
+            self.push(0, 8, u64::from(*b));
+        }
+        Ok(())
+    }
+
+    fn pad(&mut self, bits: u32) -> io::Result<()> {
+        self.push(0, u64::from(bits), 0);
+        Ok(())
+    }
+
+    fn write_unary<const STOP_BIT: u8>(&mut self, value: u32) -> io::Result<()> {
+        self.push(if STOP_BIT == 0 { 1 } else { 2 }, u64::from(value), 0);
+        Ok(())
+    }
+
+    #[inline]
+    fn byte_aligned(&self) -> bool {
+        self.wpos % 8 == 0
+    }
+}
+
+impl<const N: usize> BitRead for TokFifo<N> {
+    fn read_unsigned_counted<const MAX: u32, U>(&mut self, bits: BitCount<MAX>) -> io::Result<U>
+    where
+        U: UnsignedInteger,
+    {
+        let bits: u32 = bits.into();
+        if MAX <= U::BITS_SIZE || bits <= U::BITS_SIZE {
+            self.take(bits).map(u_from_u64::<U>)
+        } else {
+            Err(invalid())
+        }
+    }
+
+    fn read_signed_counted<const MAX: u32, I>(
+        &mut self,
+        bits: impl TryInto<SignedBitCount<MAX>>,
+    ) -> io::Result<I>
+    where
+        I: SignedInteger,
+    {
+        let count: SignedBitCount<MAX> = bits.try_into().map_err(|_| invalid())?;
+        let bits: u32 = count.into();
+        if MAX <= I::BITS_SIZE || bits <= I::BITS_SIZE {
+            let raw = self.take(bits)?;
+            let negative = (raw >> (bits - 1)) & 1 == 1;
+            let unsigned: I::Unsigned = u_from_u64(raw & mask64(bits - 1));
+            Ok(if negative {
+                unsigned.as_negative(bits)
+            } else {
+                unsigned.as_non_negative()
+            })
+        } else {
+            Err(invalid())
+        }
+    }
+
+    fn read_to<V>(&mut self) -> io::Result<V>
+    where
+        V: Primitive,
+    {
+        let mut buf = V::buffer();
+        for b in buf.as_mut().iter_mut() {
+            *b = self.take(8)? as u8;
+        }
+        Ok(V::from_be_bytes(buf))
+    }
+
+    fn read_as_to<F, V>(&mut self) -> io::Result<V>
+    where
+        F: Endianness,
+        V: Primitive,
+    {
+        let mut buf = V::buffer();
+        for b in buf.as_mut().iter_mut() {
+            *b = self.take(8)? as u8;
+        }
+        Ok(if is_little_endian::<F>() {
+            V::from_le_bytes(buf)
+        } else {
+            V::from_be_bytes(buf)
+        })
+    }
+
+    fn skip(&mut self, bits: u32) -> io::Result<()> {
+        if self.exact {
+            return self.take_exact(0, u64::from(bits)).map(|_| ());
+        }
+        let mut need = u64::from(bits);
+        let mut guard = 0;
+        while need > 0 {
+            kani::assert(guard < 10, "TokFifo: skip spans more than 9 fields");
+            guard += 1;
+            if self.rd >= self.len {
+                return Err(eof());
+            }
+            let t = self.tok(self.rd);
+            let total = if t.kind == 0 { t.bits } else { t.bits + 1 };
+            let avail = total - self.used;
+            if need >= avail {
+                need -= avail;
+                self.rd += 1;
+                self.used = 0;
+            } else {
+                self.used += need;
+                need = 0;
+            }
+        }
+        self.rpos += u64::from(bits);
+        Ok(())
+    }
+
+    fn read_unary<const STOP_BIT: u8>(&mut self) -> io::Result<u32> {
+        if self.rd >= self.len {
+            return Err(eof());
+        }
+        let want: u8 = if STOP_BIT == 0 { 1 } else { 2 };
+        if self.exact {
+            let i = self.rd;
+            self.rd = i + 1;
+            kani::assert(
+                self.kinds[i] == want,
+                "TokFifo granularity: unary read does not coincide with a written unary run",
+            );
+            self.rpos += self.widths[i] + 1;
+            return Ok(self.widths[i] as u32);
+        }
+        let t = self.tok(self.rd);
+        if t.kind == want && self.used == 0 {
+            self.rd += 1;
+            self.rpos += t.bits + 1;
+            Ok(t.bits as u32)
+        } else {
+            // bit by bit (bounded: a fixed field is at most 64 bits wide here)
+            let mut n: u32 = 0;
+            loop {
+                kani::assert(n <= 64, "TokFifo: unary run read across more than 64 fixed bits");
+                let b = self.take(1)?;
+                if b == u64::from(STOP_BIT) {
+                    return Ok(n);
+                }
+                n += 1;
+            }
+        }
+    }
+
+    #[inline]
+    fn byte_aligned(&self) -> bool {
+        self.rpos % 8 == 0
+    }
+
+    #[inline]
+    fn byte_align(&mut self) {
+        let extra = (8 - self.rpos % 8) % 8;
+        if extra != 0 {
+            let _ = BitRead::skip(self, extra as u32);
+        }
+    }
+}
+
+// ---------------------------------------------------------------------------
+// Cross-module access: the harness modules are private children of the source
+// modules, so one cannot name another's private functions.  Each harness
+// module implements its trait for `Hooks`; trait impls are crate-global.
+// ---------------------------------------------------------------------------
+
+pub struct Hooks;
+
+/// private functions of src/decode.rs, re-exported by k_decode.rs
+pub trait DecodeHooks {
+    fn read_residuals_i32<R: BitRead>(r: &mut R, order: usize, res: &mut [i32]) -> Result<(), crate::Error>;
+    fn read_subframe_i32<R: BitRead>(r: &mut R, bps: u32, ch: &mut [i32]) -> Result<(), crate::Error>;
+    fn read_subframe_i64<R: BitRead>(r: &mut R, bps: u32, ch: &mut [i64]) -> Result<(), crate::Error>;
+    fn predict_i32(coefficients: &[i64], shift: u32, ch: &mut [i32]);
+    fn read_subframes<R: BitRead>(
+        r: R,
+        header: &crate::stream::FrameHeader,
+        buf: &mut crate::audio::Frame,
+    ) -> Result<(), crate::Error>;
 }
